@@ -76,11 +76,13 @@ PROPS["C10"] = {
     "claim": "Every cell with row/family/qualifier/value up to F bytes each (all byte values, all lengths incl. empty), any 64-bit "
              "timestamp and any type byte, appended to a buffer with arbitrary prior content, decodes by the client's decoder and by "
              "an independent KeyValue decoder to the identical fields, consuming exactly cellblockLen bytes; prior content untouched.",
-    "outside": "fields longer than F bytes (in particular the 16-bit row-length and 8-bit family-length boundaries)",
+    "outside": "fields longer than F bytes other than the documented limits (the limits themselves — row of 65535 bytes, family of 255 bytes — are checked with symbolic bytes at the field ends only); rows >= 64 KiB and families >= 256 bytes (rejected by HBase; the length fields wrap)",
     "assumptions": [],
     "jobs": [
         {"name": "cell_roundtrip", "pkg": "hrpc", "entry": "VerifCellRoundTrip", "reach": ["roundtrip"],
          "params": {"quick": {"F": 3, "P": 2, "PX": 2}, "thorough": {"F": 4, "P": 2, "PX": 40}}},
+        {"name": "cell_boundary", "steps": 60000000, "pkg": "hrpc", "entry": "VerifCellBoundary", "reach": ["boundary"], "sample_pass": 1,
+         "params": {"quick": {"ROW": 65535, "FAM": 255, "ALLOC": 70000}, "thorough": {"ROW": 65535, "FAM": 255, "ALLOC": 70000}}},
         {"name": "two_encodings", "pkg": "hrpc", "entry": "VerifTwoEncodings", "reach": ["compared"], "native_retries": 12,
          "params": {"quick": {"FAMS": 2, "QUALS": 1}, "thorough": {"FAMS": 2, "QUALS": 2}}},
     ],
